@@ -20,7 +20,7 @@ def replay_known(ctx, res):
 
 def run(ctx, res):
     replay_known(ctx, res)
-    stream, problems = earleylib.earley_stream(ctx, 1, 450, 9000)
+    stream, problems = earleylib.earley_stream(ctx, 1, 2500, 30000)
     for job, st, detail in problems:
         if st == 'exc':
             if not exc_in_lark(detail):
